@@ -25,9 +25,9 @@ def ledger_for(rec, seed):
         sells.append(f'{d.isoformat()} SELL {tick(t)} {1 + k % 3} @ {5 + k % 7} FEES 1')
         if k % 4 == 0:
             sells.append(f'{d.isoformat()} DIVIDEND {tick(t)} TOTAL {2 + k} TAX 1')
-    # income in tax years WITHOUT a disposal (several of them, before the first purchase and after the last sale): whatever the
-    # report does with such years, it does it in the same order in every process
-    for j, y in enumerate((2013, 2014, 2015, 2016, 2017, 2018, 2030, 2031, 2032)):
+    # income in tax years WITHOUT a disposal (six of them, all with a configured exemption): whatever the report does with
+    # such years, it does it in the same order in every process
+    for j, y in enumerate((2014, 2015, 2016, 2017, 2018, 2019)):
         sells.append(f'{y}-07-{1 + j:02d} DIVIDEND {tickers[j % len(tickers)]} TOTAL {3 + j} TAX 0')
     rnd.shuffle(sells)
     rnd.shuffle(lines)
